@@ -25,8 +25,8 @@ import (
 type Frame struct {
 	Kind   string `json:"kind"` // stun | cd
 	Number uint16 `json:"number,omitempty"`
-	Len    int    `json:"len"`            // STUN body length (4-aligned) or ChannelData payload length
-	Seed   uint64 `json:"seed,omitempty"` // payload content
+	Len    int    `json:"len"`              // STUN body length (4-aligned) or ChannelData payload length
+	Seed   uint64 `json:"seed,omitempty"`   // payload content
 	Cookie bool   `json:"cookie,omitempty"` // ChannelData payload starts with the STUN magic cookie
 }
 
@@ -139,15 +139,15 @@ func (c *chunkConn) SetReadDeadline(time.Time) error  { return nil }
 func (c *chunkConn) SetWriteDeadline(time.Time) error { return nil }
 
 // transport.TCPConn extras.
-func (c *chunkConn) CloseRead() error                      { return nil }
-func (c *chunkConn) CloseWrite() error                     { return nil }
-func (c *chunkConn) ReadFrom(io.Reader) (int64, error)     { return 0, errors.New("not supported") }
-func (c *chunkConn) SetLinger(int) error                   { return nil }
-func (c *chunkConn) SetKeepAlive(bool) error               { return nil }
+func (c *chunkConn) CloseRead() error                       { return nil }
+func (c *chunkConn) CloseWrite() error                      { return nil }
+func (c *chunkConn) ReadFrom(io.Reader) (int64, error)      { return 0, errors.New("not supported") }
+func (c *chunkConn) SetLinger(int) error                    { return nil }
+func (c *chunkConn) SetKeepAlive(bool) error                { return nil }
 func (c *chunkConn) SetKeepAlivePeriod(time.Duration) error { return nil }
-func (c *chunkConn) SetNoDelay(bool) error                 { return nil }
-func (c *chunkConn) SetWriteBuffer(int) error              { return nil }
-func (c *chunkConn) SetReadBuffer(int) error               { return nil }
+func (c *chunkConn) SetNoDelay(bool) error                  { return nil }
+func (c *chunkConn) SetWriteBuffer(int) error               { return nil }
+func (c *chunkConn) SetReadBuffer(int) error                { return nil }
 
 func split(stream []byte, cuts []int) [][]byte {
 	var out [][]byte
